@@ -1,6 +1,7 @@
 import DoltVerif.Lemmas.BigValuesVarint
 import DoltVerif.Lemmas.BigValuesBlob
 import DoltVerif.Lemmas.ValCodecBytes
+import DoltVerif.Lemmas.BigValuesWalk
 /-!
 C16 — Large TEXT, BLOB and JSON values are stored faithfully (partial).
 
@@ -218,8 +219,77 @@ def adaptive_compare_full : Prop :=
     compareAdaptive (if rx then .inl x else .oob (build cs x [])) (if ry then .inl y else .oob (build cs y []))
       = some (bytesCompare x y)
 
-/-- NOT PROVED: two out-of-band values whose trees have the same height compare like their
-contents (holds in every run of the harness) -/
+/-- the tree of a multi-chunk value under full reads -/
+theorem build_large (cs : Nat) (hs : 2 ≤ cs / addrLen) (x : Bytes) (hx : cs < x.length) :
+    build cs x [] = some ⟨topLevelOf cs x.length, cs / addrLen, leafChunks cs (x.length + 1) x []⟩ := by
+  have hc : 0 < cs := by
+    rcases Nat.eq_zero_or_pos cs with h | h
+    · subst h; simp at hs
+    · exact h
+  have hfl := leafChunks_flatten cs hc (x.length + 1) x [] (by omega) (fun s hs => by simp at hs)
+  unfold build buildWith
+  simp only []
+  rw [if_neg (by omega), if_neg (by omega)]
+  have hne : (leafChunks cs (x.length + 1) x []).isEmpty = false := by
+    cases h : leafChunks cs (x.length + 1) x [] with
+    | nil => rw [h] at hfl; simp at hfl; subst hfl; simp at hx
+    | cons a as => rfl
+  rw [hne]
+  simp only [Bool.false_eq_true, if_false]
+  rw [List.take_of_length_le (leaves_fit cs hs x _)]
+
+/-- **adaptive_compare (equal height 1)**: two out-of-band values of more than one chunk whose
+trees have height 1 — with the production chunk size: 4001 … 799 999 bytes, i.e. every multi-chunk
+TEXT/BLOB below 800 kB — compare like their contents.  The single `Next` call suffices here: the
+aligned walk skips equal children and descends into the first differing pair of (aligned) leaves
+(`walk1`), and comparing that pair is comparing the contents (`leafCmp_flatten`). -/
+theorem adaptive_compare_height1 (cs : Nat) (hs : 2 ≤ cs / addrLen) (x y : Bytes)
+    (hx : cs < x.length) (hy : cs < y.length)
+    (tx : topLevelOf cs x.length = 1) (ty : topLevelOf cs y.length = 1) :
+    compareAdaptive (.oob (build cs x [])) (.oob (build cs y [])) = some (bytesCompare x y) := by
+  have hc : 0 < cs := by
+    rcases Nat.eq_zero_or_pos cs with h | h
+    · subst h; simp at hs
+    · exact h
+  rw [build_large cs hs x hx, build_large cs hs y hy, tx, ty]
+  have fx := leafChunks_flatten cs hc (x.length + 1) x [] (by omega) (fun s hs => by simp at hs)
+  have fy := leafChunks_flatten cs hc (y.length + 1) y [] (by omega) (fun s hs => by simp at hs)
+  have ax := leafChunks_aligned cs hc (x.length + 1) x
+  have ay := leafChunks_aligned cs hc (y.length + 1) y
+  have lx : (leafChunks cs (x.length + 1) x []).length ≤ cs / addrLen := by
+    have := leaves_fit cs hs x (x.length + 1); rw [tx] at this; simpa using this
+  have ly : (leafChunks cs (y.length + 1) y []).length ≤ cs / addrLen := by
+    have := leaves_fit cs hs y (y.length + 1); rw [ty] at this; simpa using this
+  generalize leafChunks cs (x.length + 1) x [] = L at *
+  generalize leafChunks cs (y.length + 1) y [] = R at *
+  subst fx; subst fy
+  unfold compareAdaptive
+  simp only []
+  by_cases e : (⟨1, cs / addrLen, L⟩ : Tree) = ⟨1, cs / addrLen, R⟩
+  · have : L = R := by injection e
+    subst this
+    simp [bytesCompare_refl]
+  · simp only [e, decide_false, Bool.false_eq_true, if_false]
+    have w := walk1 (cs / addrLen) L R lx ly
+      (fuelFor (.oob (some ⟨1, cs / addrLen, L⟩)) + fuelFor (.oob (some ⟨1, cs / addrLen, R⟩))) 0
+      (by omega) (by omega) (by simp [fuelFor]; omega)
+    simp only [side1, List.drop_zero] at w
+    simp only [mkSide]
+    rw [← leafCmp_flatten cs hc L R ax ay]
+    cases hres : differNext (fuelFor (.oob (some ⟨1, cs / addrLen, L⟩)) + fuelFor (.oob (some ⟨1, cs / addrLen, R⟩)))
+        ⟨some ⟨1, cs / addrLen, L⟩, [⟨1, 0, 0⟩], none, false⟩ ⟨some ⟨1, cs / addrLen, R⟩, [⟨1, 0, 0⟩], none, false⟩ with
+    | eof => rw [hres] at w; simpa [resultOrd] using w
+    | pair lc rc => rw [hres] at w; simpa [resultOrd] using w
+    | outOfFuel => rw [hres] at w; simp [resultOrd] at w
+
+example : topLevelOf 4000 4001 = 1 ∧ topLevelOf 4000 799999 = 1 ∧ topLevelOf 4000 800000 = 2 := by decide
+
+/-- NOT PROVED for heights ≥ 2 (values of 800 000 bytes and more at the production chunk size):
+two out-of-band values whose trees have the same height compare like their contents.  The
+argument is the one of `adaptive_compare_height1` repeated per level (skip equal children, descend
+into the first differing pair; a child that is a strict prefix of its partner is the last child of
+every ancestor, so that side is exhausted and the other yields its next leaf); it holds in every
+run of the harness (chunk sizes 40/60/100 reach height 3). -/
 def adaptive_compare_samelevel_full : Prop :=
   ∀ cs (x y : Bytes), 2 ≤ cs / addrLen → topLevelOf cs x.length = topLevelOf cs y.length →
     cs < x.length → cs < y.length →
